@@ -97,9 +97,15 @@ def main():
     broken_obligations = []
     try:
         import gen_facts
-        gen_facts.generate()
-    except Exception as e:  # extraction failure = broken tie, handled below
-        broken_obligations.append(("fact-extraction", f"{type(e).__name__}: {e}"))
+        ferrs = gen_facts.generate()
+    except Exception as e:  # noqa
+        ferrs = {"*": f"{type(e).__name__}: {e}"}
+    for fact, msg in ferrs.items():
+        # a fact that can no longer be extracted is a broken tie of the properties that use it
+        if fact == "*" or fact in cfg.get("generated", []):
+            broken_obligations.append(("fact-extraction", f"{fact}: {msg}"))
+        else:
+            print(f"note: generated fact {fact} could not be extracted ({msg}); not an obligation of {pid}")
     try:
         bt, blog = lean_tools.build(("tpdriver",))
     except lean_tools.BuildError as e:
